@@ -104,6 +104,7 @@ func (f *fastCache) Delete(key string) error {
 
 type world struct {
 	c      Case
+	wg     sync.WaitGroup // task goroutines: all must have returned before the stores are closed
 	g      *vkit.Gate
 	main   *fastCache   // the tier that holds index + records (cache of the single hybrid, or the shared tier)
 	locals []*fastCache // shared topology: per-node local caches (id counter, global list)
@@ -153,8 +154,21 @@ func (w *world) repo(node int) *repos.HTTPDomainMappingRepository {
 	return w.repos[((node%len(w.repos))+len(w.repos))%len(w.repos)]
 }
 
-func (w *world) close() {
+// drained waits (gate open) until every task goroutine has returned.
+func (w *world) drained(d time.Duration) bool {
 	w.g.Deactivate()
+	done := make(chan struct{})
+	go func() { w.wg.Wait(); close(done) }()
+	select {
+	case <-done:
+		return true
+	case <-time.After(d):
+		return false
+	}
+}
+
+func (w *world) close() {
+	w.drained(60 * time.Second)
 	w.cancel()
 	for _, h := range w.hs {
 		h.Close()
@@ -391,6 +405,7 @@ type result struct {
 	creates     int
 	deletes     int
 	final       string
+	skipped     bool
 }
 
 func opKeyOf(desc string) (task, op, key string) {
@@ -436,7 +451,7 @@ func runCase(c Case, choose func(int, []string) int) result {
 		w.m.recs[mp.ID] = &mrec{id: mp.ID, name: mp.FullDomain, owner: client}
 	}
 	w.g.MaxSteps = 600
-	w.g.Stall = 500 * time.Millisecond // repository code holds no lock across store operations
+	w.g.Stall = 2 * time.Second // repository code holds no lock across store operations
 	w.g.FailAt = c.FailAt
 	// injected faults: writes to index / record keys only (a failed tier READ is reported by
 	// hybrid as not-found — finding C14/tier-read-error-as-miss — and is outside this property)
@@ -446,7 +461,8 @@ func runCase(c Case, choose func(int, []string) int) result {
 	w.g.Activate()
 	for i := range c.Tasks {
 		t := c.Tasks[i]
-		w.g.Go(fmt.Sprintf("T%d", i+1), func() { w.runTask(t) })
+		w.wg.Add(1)
+		w.g.Go(fmt.Sprintf("T%d", i+1), func() { defer w.wg.Done(); w.runTask(t) })
 	}
 	r := result{}
 	log := w.g.Run(func(n int, desc []string) int {
@@ -463,9 +479,15 @@ func runCase(c Case, choose func(int, []string) int) result {
 		}
 	}
 	if w.g.Aborted {
-		r.key, r.detail = "C19/harness/schedule-aborted", vkit.StepsString(log)
+		fin := w.drained(60 * time.Second)
+		if len(log) >= w.g.MaxSteps || !fin {
+			r.key, r.detail = "C19/harness/schedule-aborted", fmt.Sprintf("steps=%d tasks finished=%v; %s", len(log), fin, vkit.StepsString(log))
+		} else {
+			r.skipped = true // the scheduler gave up on a starved machine: not a property outcome
+		}
 		return r
 	}
+	w.drained(60 * time.Second)
 	if w.g.Stalls > 0 {
 		vkit.AddExtra("unexpected_stalls", int64(w.g.Stalls))
 	}
@@ -764,6 +786,10 @@ func report(t vkit.TB, c Case, r result, class string) {
 		topo = "shared-tier"
 	}
 	class = class + "/" + topo
+	if r.skipped {
+		vkit.Skipped(1)
+		return
+	}
 	if r.key != "" && os.Getenv("C19_DISCOVER") != "" {
 		// development aid: list every distinct root-cause key with one example instead of failing
 		discMu.Lock()
@@ -816,7 +842,7 @@ func genOp(t *rapid.T, l string) Op {
 }
 
 func TestRandomSchedules(t *testing.T) {
-	vkit.Check(t, 2000, 60000, func(t *rapid.T) {
+	vkit.Check(t, 12000, 120000, func(t *rapid.T) {
 		c := Case{FailAt: -1}
 		c.Shared = rapid.Bool().Draw(t, "shared")
 		c.FastLists = rapid.IntRange(0, 2).Draw(t, "fastLists") != 0
@@ -895,8 +921,11 @@ func TestExhaustive(t *testing.T) {
 				if !vkit.Mine(idx) {
 					continue
 				}
-				if (prog.thorough || !fastLists) && !vkit.Thorough() {
+				if prog.thorough && !vkit.Thorough() {
 					continue
+				}
+				if !fastLists && !vkit.Thorough() && len(prog.tasks[0])+len(prog.tasks[1]) > 2 {
+					continue // quick: list operations are scheduled for the one-operation-per-task programs only
 				}
 				if prog.thorough && !fastLists {
 					continue // tree too large with list operations scheduled
